@@ -27,6 +27,10 @@ class References:
           break
       if has_undef_overlaps:
         cigar = gfapy.AlignmentPlaceholder()
+      elif i >= len(self.overlaps):
+        raise gfapy.InconsistencyError(
+          "Path has {} oriented segments, ".format(len(self.segment_names))+
+          "but {} overlaps".format(len(self.overlaps)))
       else:
         cigar = self.overlaps[i]
       retval.append([self.segment_names[i], self.segment_names[j], cigar])
